@@ -101,11 +101,12 @@ pub trait Rt {
     fn rt_leaf_group_ref(&self) -> &Self::GR;
     fn rt_into_mid(self) -> Self::MO;
     fn rt_finish(self) -> u64;
-    /// consuming, fallible, wrapped success value, integer-coded
+    /// consuming, fallible, wrapped success value, with a C result (declared before the
+    /// integer-coded one: its error type has no integer coding)
+    fn rt_try_mid_plain(self, fail: bool) -> Result<Self::MO, u8>;
+    /// the same, integer-coded
     #[int_result]
     fn rt_try_mid(self, fail: bool) -> Result<Self::MO, ()>;
-    /// the same with a C result
-    fn rt_try_mid_plain(self, fail: bool) -> Result<Self::MO, u8>;
 }
 
 /// consuming method returning an *unwrapped* associated type
